@@ -10,6 +10,7 @@ import (
 	"verif/internal/diff"
 	"verif/internal/gen"
 	"verif/internal/h"
+	"verif/internal/ref"
 	"verif/internal/rt"
 	"verif/internal/sut"
 )
@@ -122,6 +123,12 @@ func TestProp(t *testing.T) {
 	r.Rule("(a) every control skeleton up to the size bound: programs t/2 of one clause, two clauses, or one clause with a top-level disjunctive body, optionally a trailing fact, bodies = all sequences up to length L over a 16-goal alphabet (nondeterministic sources, tests, !, fail, call(!), call((n(X),!)), \\+, once, if-then-else, findall and catch with an inner cut, a callee that cuts), each under 6 queries (plain, after a nondeterministic goal, before one, under once, under \\+, as left disjunct); quick: first body L<=2, second L<=1; thorough: L<=3 single, L<=2 x L<=2 pairs. (b) rapid-sampled larger programs with cuts as direct conjuncts of clause bodies / top-level disjuncts and inside call/N, \\+, once, findall/bagof/setof, catch, with if-then-else, recursion templates with cuts (first solution, cut in a recursive clause, repeat...!, double cut, cut in the last clause). Oracle: the reference machine's ISO cut semantics; compared: answer sequence and termination. Non-trivial: the reference executed a cut that removed at least one choice point, or a cut-opaque construct in a run that backtracked and answered. Distinct by program and query.",
 		"the reference machine's cut-barrier model (DESIGN.md 2.3.1)",
 		"only the cut placements for which the property claims clause-level cut are generated: a bare ! is never placed inside a branch of -> or a nested ;")
+	if r.Shard() == 0 {
+		if err := diff.OracleSelfTest(); err != nil {
+			t.Fatalf("%v", err)
+		}
+		r.LabelN("oracle_self_test_examples", ref.NExamples())
+	}
 	r.Regress(t)
 	if r.Failed() {
 		return
